@@ -979,3 +979,87 @@ def check_C06(ctx, rep):
     rep.assumptions += ['the measure of each target over the draw values (f32 sums, rand float generation) is not decided',
                         'probabilities are validated by C12']
     return 'sampling skeleton of State::sample_state: selection, half-open draw, update-before-compare order, strictness, target identity, residual None'
+
+
+# =================================================================== C05
+
+def check_C05(ctx, rep):
+    from .effects import Closure
+    prog, an = ctx.prog, ctx.an
+    F = fw_fns(prog)
+    rep.rule('C05.R1', 'no source of ambient input (wall clock, OS randomness, hash iteration order, environment, threads, mutable or '
+             'interior-mutable statics, thread-locals) is reachable in the call graph from Framework::new / trigger_events / num_machines, '
+             'followed through maybenot, rand, rand_core, rand_distr and the other dependencies with facts; randomness is drawn only through '
+             'the caller\'s R: RngCore, time only from the current_time arguments. Sanctioned: the membership-only HashSet in State::validate')
+    rep.rule('C05.R2', 'Clone for Framework, MachineRuntime, SignalTarget and TriggerAction is the compiler-derived field-wise clone')
+    rep.rule('C05.R3', 'documented order: trigger_events processes the events slice front to back with one process_event per element; '
+             'every broadcast loop runs over 0..runtime.len() ascending (Range iterator, no rev/step); LimitReached and CounterZero are '
+             'raised by direct calls inside the step that detects them; the signal round comes after the event loop')
+    roots = [F['new'], F['trigger_events'], F['num_machines']] + prog.closures_of(F['trigger_events'])
+    cl = Closure(prog, roots)
+    effs = cl.effects()
+    rep.extra['call_graph'] = {'functions_reached': len(cl.nodes), 'leaf_calls_without_facts': len(cl.leaves),
+                               'parameter_calls': cl.param_calls, 'unresolved_non_parameter_calls': len(cl.unresolved),
+                               'indirect_calls': len(cl.indirect), 'crates_reached': sorted({f.crate for f in cl.nodes.values()})}
+    rep.count_floor('C05.R1', 'functions in the closure of the framework entry points', len(cl.nodes), 40)
+    for r in roots:
+        rep.analysed(r)
+    sanction_hits = 0
+    for (kind, k, path) in effs:
+        caller = prog.fns.get(k)
+        cname = caller.short() if caller else k
+        if kind == 'hash-order' and caller is not None and caller.crate == FW and caller.name == 'validate' and (caller.impl_adt or '').endswith('State'):
+            m = path.split('::')[-1]
+            ok = m in ('new', 'contains', 'insert') and 'HashSet' in path
+            sanction_hits += 1
+            rep.ob('C05.R1', caller, 'sanctioned-hashset:' + m, ok, 'HashSet used for membership only (%s)' % path)
+            continue
+        if kind == 'hash-order' and caller is not None and caller.crate in ('std', 'core', 'alloc', 'hashbrown'):
+            continue
+        rep.ob('C05.R1', cname, 'effect:%s:%s' % (kind, path.split('<')[0][-60:]), False,
+               '%s source %s reachable via %s' % (kind, path, ' -> '.join(cl.chain(k)[-6:])))
+    rep.ob('C05.R1', '<inventory>', 'effect-sources-reachable', True, 'effect sources found: %d, of which sanctioned: %d' % (len(effs), sanction_hits))
+    for k in cl.indirect:
+        fnk = prog.fns.get(k)
+        if fnk is not None and fnk.crate == FW:
+            rep.ob('C05.R1', fnk, 'indirect-call', False, 'call through a function pointer / dyn in %s' % fnk.short())
+    # R2 derived clones
+    for ty in ('framework::Framework', 'framework::MachineRuntime', 'framework::SignalTarget', 'action::TriggerAction', 'framework::MachineId'):
+        imps = [i for i in prog.impls if i['crate'] == FW and i['trait'].endswith('clone::Clone') and i['self_ty'].split('<')[0].endswith(ty)]
+        rep.ob('C05.R2', ty, 'derived-clone', len(imps) == 1 and imps[0]['derived'], 'Clone impls: %d, derived: %s' % (len(imps), [i['derived'] for i in imps]))
+    # R3 order
+    te = F['trigger_events']
+    ta = an.get(te)
+    loops = ta.cfg.loops()
+    pe_calls = [(b, args) for (b, f, args, t) in calls(ta) if callee_str(f).endswith('::process_event')]
+    rep.count_exact('C05.R3', 'process_event call sites', len(pe_calls), 1)
+    for (b, args) in pe_calls:
+        e = args[1]
+        # element of slice::Iter over the events parameter
+        ok = contains(e, lambda x: is_call(x, 'Iterator>::next')) and any(b in body for body in loops.values())
+        it_ok = False
+        for (b2, f2, a2, t2) in calls(ta):
+            if callee_str(f2).endswith('into_iter') and a2 and a2[0] == ('param', 2):
+                it_ok = True
+        rep.ob('C05.R3', te, 'events-processed-in-slice-order', ok and it_ok, 'process_event(%s)' % show(e))
+    # loops in framework fns: Range or slice iterators only, no adaptors such as rev/step_by/skip
+    bad_adapt = ('::rev', '::step_by', '::skip', '::take', '::filter', '::chain', '::rev')
+    for name, fn in F.items():
+        fa = an.get(fn)
+        for (b, f, args, t) in calls(fa):
+            cs = callee_str(f)
+            if any(cs.endswith(x) for x in bad_adapt) and 'Option' not in cs and name not in ():
+                if name == 'trigger_events' and cs.endswith('filter_map'):
+                    continue
+                rep.ob('C05.R3', fn, 'iterator-adaptor:' + cs.split('::')[-1], 'Option' in cs, '%s in %s' % (cs, name))
+    # internal events raised by direct calls
+    dl = an.get(F['decrement_limit'])
+    uc = an.get(F['update_counter'])
+    ok_lr = any(callee_str(f).endswith('::transition') and a[2][0] == 'agg' and a[2][2] == 'LimitReached' for (b, f, a, t) in calls(dl))
+    ok_cz = any(callee_str(f).endswith('::transition') and a[2][0] == 'agg' and a[2][2] == 'CounterZero' for (b, f, a, t) in calls(uc))
+    rep.ob('C05.R3', F['decrement_limit'], 'LimitReached-raised-immediately', ok_lr, '')
+    rep.ob('C05.R3', F['update_counter'], 'CounterZero-raised-immediately', ok_cz, '')
+    rep.assumptions += ['agreement with the documented operational semantics over histories is NOT decided (needs an executable reference)',
+                        'std functions without MIR in the facts are judged by name against the effect-source table',
+                        "the caller's R, T, M implementations are pure functions of their own state"]
+    return 'ambient-effect closure of the framework entry points over the cross-crate call graph; derived clones; processing-order skeleton'
